@@ -5,21 +5,27 @@ SPEC = {
     "lean_dirs": ["SemaModel/C08", "SemaModel/C04"],
     "harness": "c08",
     "harness_args": {
-        "quick": ["-cache", 120, "-ops", 50, "-hist", 12, "-batches", 9, "-queries", 12],
+        "quick": ["-cache", 120, "-ops", 50, "-hist", 18, "-batches", 9, "-queries", 12],
         "thorough": ["-cache", 4000, "-ops", 70, "-hist", 200, "-batches", 14, "-queries", 14],
     },
     "timeout": {"quick": 600, "thorough": 3000},
     "level": "proof",
     "tie": ("T2: tools/facts_c08 extracts from itemcache.go that Put stores the element dirty, that Flush writes when "
             "`IsDirty || CheckAndClearDirty()`, deletes-and-forgets deleted elements and clears the flag, that every function rewriting a "
-            "cached value in place raises its dirty flag, and that the flush functions put / the constructors get the persisted parameters; "
+            "cached value in place raises its dirty flag, that the flush functions put / the constructors get the persisted parameters, "
+            "that the write paths of the two vector indexes end `...; Fit; flush` (call order), and that no ReadFrom / constructor of the files "
+            "whose values are cached lets a byte slice handed out by the storage layer escape un-copied (taint extraction); "
             "tools/facts_c04 extracts the Storable plans of the vector-store points and the graph node; the theorems C08_flush_* / "
             "C08_answer_indep_partial / C08_history_partial / C08_params_persist_* are proved about those generated tables. "
             "T3: (A) random programs (Get / Put / Delete / in-place mutation / ForEach / Count / Flush / eviction) on the real generic "
             "cache.ItemCache are replayed line by line on the Lean model of itemcache.go; (B) histories of batches on real shards carrying "
-            "every index kind: after every batch the same queries are answered by the live shard, by fresh shards on a copy of the file "
-            "(cold / cache disabled / tiny cache asked twice), by shards that ran the history with cache disabled / tiny / LRU-limited, and by "
-            "a memory-backed shard; answers compared exactly (filters, graph search), modulo ties (flat search), modulo 4 ulp (text scores)"),
+            "every index kind (flat and Vamana indexes under every quantiser, with trigger thresholds crossed inside a batch; dense and "
+            "chain-shaped graphs): after every batch the same queries are answered by the live shard, by fresh shards on a copy of the file "
+            "(cold / cache disabled / tiny cache asked twice), by shards that ran the history with cache disabled / tiny / LRU-limited, by "
+            "a memory-backed shard, and by a shard that is restarted at random points of the history and runs behind a storage proxy which "
+            "hands out private copies of every key / value and turns them into garbage when the transaction ends (compared with a fresh shard on "
+            "a copy of its own file); batches whose storage transaction fails at commit time must leave no trace; answers compared exactly "
+            "(filters, graph search), modulo ties (flat search), modulo 4 ulp (text scores)"),
     "required_theorems": [
         "Sema.C08.CacheCoherent_fresh", "Sema.C08.CacheCoherent_fate", "Sema.C08.CacheCoherent_view",
         "Sema.C08.C08_flush", "Sema.C08.C08_mutation_dirty", "Sema.C08.C08_ops_refine", "Sema.C08.C08_batch",
@@ -28,6 +34,9 @@ SPEC = {
         "Sema.C08.C08_flush_plain", "Sema.C08.C08_flush_binary", "Sema.C08.C08_flush_product", "Sema.C08.C08_flush_graphNode",
         "Sema.C08.C08_answer_indep_partial", "Sema.C08.C08_history_partial", "Sema.C08.C08_history_graphNode",
         "Sema.C08.C08_params_persist_binary", "Sema.C08.C08_params_persist_product",
+        "Sema.C08.C08_fit_then_flush", "Sema.C08.C08_fit_then_flush_binary", "Sema.C08.C08_flush_before_fit_witness",
+        "Sema.C08.C08_flush_before_fit_params_witness", "Sema.C08.C08_train_in_batch_binary",
+        "Sema.C08.C08_read_copies_stable", "Sema.C08.C08_read_copies_warm_cold", "Sema.C08.C08_alias_unstable_witness",
     ],
     "trusted_base": [
         "tools/facts_c08 and tools/facts_c04 (go/ast pattern extraction; an unrecognised shape is a hard error)",
